@@ -70,6 +70,10 @@ CHECKS = {
    tech="TLA+ state machine JtHookCache (persistent source versions and per-tag caches, runs with hooked set / checker / nested imports / write-suppression / a non-compiling hooked module, edits) with invariants Fresh and CacheTagged proved for the get_code patch scope and refuted by TLC for three broken variants; TLC-simulated histories replayed as sequences of fresh interpreter processes over one directory with real __pycache__ files",
    text="Each replayed history (2 runs over modules A->B, optional source edit, every hooked subset, two checkers or none, import orders incl. nested imports, runs that do not write bytecode, imports of a hooked module that fails to compile) runs every run in its own interpreter; each run reports per module the source version and the instrumentation it actually executed with, which must equal what the specification's Fresh invariant demands.",
    note="300 histories in the quick tier (seeded sample biased to configuration changes); 3 modules / 3 runs in the thorough tier. mtime-based pyc invalidation."),
+ "C10": dict(cat="translation_validation", sec="5 C10",
+   tech="TLA+ spec JtHookAst.Transform (the only permitted differences, on module skeletons) with theorems checked by TLC on the bounded skeleton universe; translation validation per program: TLC decides Transform(skeleton(original)) = skeleton(transformed), plus strip-and-compare of the full AST incl. every position attribute, compile, compiler flags, docstring, co_firstlineno of functions",
+   text="Each program - modules rendered from every TLC-enumerated skeleton (prologues over docstring / constant / __future__ / other statements, forests of def / async def / class nodes with 0..2 decorators wrapped in if / try / with / match, PEP 695 generics) and corpus files (the repository, a seeded sample of 1200 stdlib and site-packages files in the quick tier, all of them in the thorough tier) - is pushed through the real JaxtypingTransformer; TLC validates the skeleton law (one import after docstring and __future__ imports, decorator innermost on every def, outermost on every class, nothing on async defs) and the harness validates that nothing else differs and that the result compiles.",
+   note="(ii)-(iv) are Python-side checks; the specification contributes the rule of which differences are permitted and TLC evaluates it on abstractions. The class-body code object of a class with user decorators starts one or more lines later than before (the added outermost decorator carries the class statement's position): outside the property statement, noted in DESIGN.md."),
 }
 NOT_YET = {}
 
